@@ -273,7 +273,15 @@ def call_variant(v, x, o, route, nproc):
         cfg[k_] = val
     for name, d in (('imf_opts', io), ('envelope_opts', eo), ('extrema_opts', xo)):
         for k_, val in (d or {}).items():
-            cfg['%s/%s' % (name, k_)] = val
+            if isinstance(val, dict) and route == 'get_func':
+                # three-level key paths: edit the nested pad-option dictionary entry by entry, in place
+                for k3 in list(cfg['%s/%s' % (name, k_)].keys()):
+                    if k3 not in val:
+                        del cfg['%s/%s/%s' % (name, k_, k3)]
+                for k3, v3 in val.items():
+                    cfg['%s/%s/%s' % (name, k_, k3)] = v3
+            else:
+                cfg['%s/%s' % (name, k_)] = val
     if route == 'config':
         return f(x.copy(), **cfg), cfg
     return cfg.get_func()(x.copy()), cfg
@@ -295,6 +303,7 @@ def check_case(case):
     o = OPTSETS[oi]
     tag = '%s signal=%d options=%r route=%s schedule=%r' % (v, si, o, route, sched)
     viols = []
+    pristine_default(si, seed)
     np.random.seed(77 + seed)
     state = np.random.get_state()
     del forkpool.TRACE[:]
@@ -372,6 +381,25 @@ def check_case(case):
     if got.shape != want.shape or not np.max(np.abs(got - want)) <= scale:
         viols.append(('%s:output' % v, '%s: output differs from the explicit pipeline (shape %r vs %r%s)' % (
             tag, got.shape, want.shape, '' if got.shape != want.shape else ', max diff %.3g' % np.max(np.abs(got - want)))))
+    # ---- oracle 3: the delivery route must not matter (a config is just defaults + the supplied options)
+    if route != 'kwargs' and sched is None and not v.startswith('second'):
+        np.random.set_state(state)
+        try:
+            with forkpool.installed(forkpool.SerialMP()):
+                out_kw, _ = call_variant(v, x, o, 'kwargs', 1)
+            got_kw = np.asarray(out_kw[0] if isinstance(out_kw, tuple) else out_kw)
+            if got_kw.shape != got.shape or not np.max(np.abs(got_kw - got)) <= scale:
+                viols.append(('%s:route-changes-result' % v, '%s: result differs from the keyword-dictionary route for the same options' % tag))
+        except Exception as e:
+            viols.append(('%s:route:raise' % v, '%s: keyword route raised %r' % (tag, e)))
+        del forkpool.TRACE[:]
+    # ---- oracle 4: options of this call must not leak into later calls (defaults stay the defaults)
+    again = np.asarray(_orig['sift'](x.copy(), max_imfs=CAP))
+    del forkpool.TRACE[:]
+    ref0 = pristine_default(si, seed)
+    if again.shape != ref0.shape or not np.array_equal(again, ref0):
+        viols.append(('%s:options-leak-into-later-calls' % v, '%s: after this call sift(x) with no options no longer gives the result it gave before' % tag))
+        _pristine.pop((si, seed), None)
     effect = default.shape != want.shape or np.max(np.abs(default - want)) > 1e-6
     return Outcome(cls='%s:%s' % (v, 'pooled' if sched is not None else 'serial'), transitions=sum(counts.values()),
                    viols=viols, nontrivial=bool(effect))
@@ -408,6 +436,20 @@ def expected_output(v, x, o, recs, state, aux, flip=False):
             out[:, m, :t.shape[1]] = t
         res.append(out)
     return res[0], res[1]
+
+
+_pristine = {}
+
+
+def pristine_default(si, seed):
+    """sift(x) with no options, computed in this process before any configuration object has been edited."""
+    key = (si, seed)
+    if key not in _pristine:
+        x = signals.fb_signal(SIGNALS[si], seed)
+        install_seams()
+        _pristine[key] = np.asarray(_orig['sift'](x.copy(), max_imfs=CAP))
+        del forkpool.TRACE[:]
+    return _pristine[key]
 
 
 def worker_init():
